@@ -29,7 +29,7 @@ def run(ctx):
         try:
             extra = ctx.overlaygen(["-clock", "internal/api/retention.go"])
             ov = ctx.make_overlay([], extra=extra)
-            built["bin"] = ctx.go_build("retention", overlay=ov)
+            built["bin"] = ctx.go_build("retention", overlay=ov, timeout=3600)
         except BaseException as e:  # noqa
             built["err"] = e
 
